@@ -615,6 +615,112 @@ func init() {
 		fmt.Fprintf(&b, "def refPromptType : List UInt8 := %s -- %q\n", wireLeanBytes("ref/prompt"), "ref/prompt")
 		fmt.Fprintf(&b, "def refResourceType : List UInt8 := %s -- %q\n", wireLeanBytes("ref/resource"), "ref/resource")
 
+		// multi round trip: the members a retried request carries (CallToolParams & co.), the probe of
+		// unmarshalInputResponse (member names and the ORDER of its cases), the params types
+		// setMultiRoundTripRetryParams knows and what it assigns
+		b.WriteString("\n")
+		{
+			var retryFacts [][]string
+			for _, tn := range []string{"CallToolParams", "CallToolParamsRaw", "GetPromptParams", "ReadResourceParams"} {
+				st := c.namedStruct("mcp", tn)
+				if st == nil {
+					c.Errf("wire: struct %s not found", tn)
+					continue
+				}
+				for _, f := range c.structFields(st) {
+					if f.Go == "InputResponses" || f.Go == "RequestState" {
+						retryFacts = append(retryFacts, []string{tn, f.Go, f.JSON, f.Omit})
+					}
+				}
+			}
+			c.Fact("wire.retry_members", retryFacts)
+			fmt.Fprintf(&b, "/-- mcp/protocol.go: the two members a retried request carries (fact wire.retry_members: the same tag in all four params types) -/\n")
+			fmt.Fprintf(&b, "def retry_InputResponses_name : List UInt8 := %s -- %q\n", wireLeanBytes("inputResponses"), "inputResponses")
+			fmt.Fprintf(&b, "def retry_RequestState_name : List UInt8 := %s -- %q\n", wireLeanBytes("requestState"), "requestState")
+			if fd := c.Func("mcp", "", "unmarshalInputResponse"); fd != nil && fd.Body != nil {
+				var probe *ast.StructType
+				var order []string
+				ast.Inspect(fd.Body, func(n ast.Node) bool {
+					switch x := n.(type) {
+					case *ast.StructType:
+						if probe == nil {
+							probe = x
+						}
+					case *ast.CaseClause:
+						for _, e := range x.List {
+							order = append(order, c.Src(e))
+						}
+					}
+					return true
+				})
+				if probe != nil {
+					facts["irProbe"] = factFields(c.structFields(probe))
+				}
+				c.Fact("wire.input_response_probe_order", order)
+			} else {
+				c.Errf("wire: unmarshalInputResponse not found")
+			}
+			fmt.Fprintf(&b, "/-- mcp/protocol.go `unmarshalInputResponse`: the discriminating members, in the order of the switch (fact wire.input_response_probe_order) -/\n")
+			fmt.Fprintf(&b, "def probe_Roots_name : List UInt8 := %s -- %q\n", wireLeanBytes("roots"), "roots")
+			fmt.Fprintf(&b, "def probe_Action_name : List UInt8 := %s -- %q\n", wireLeanBytes("action"), "action")
+			fmt.Fprintf(&b, "def probe_Role_name : List UInt8 := %s -- %q\n", wireLeanBytes("role"), "role")
+			if fd := c.Func("mcp", "", "setMultiRoundTripRetryParams"); fd != nil && fd.Body != nil {
+				var seq []string
+				ast.Inspect(fd.Body, func(n ast.Node) bool {
+					switch x := n.(type) {
+					case *ast.CaseClause:
+						for _, e := range x.List {
+							seq = append(seq, "case "+c.Src(e))
+						}
+					case *ast.AssignStmt:
+						seq = append(seq, c.Src(x))
+					}
+					return true
+				})
+				c.Fact("wire.retry_assignments", seq)
+			} else {
+				c.Errf("wire: setMultiRoundTripRetryParams not found")
+			}
+		}
+		// ToolAnnotations: the struct, and the struct of the MCPGODEBUG=hintomitempty=1 branch of MarshalJSON
+		emitStruct("ToolAnnotations", c.namedStruct("mcp", "ToolAnnotations"), "mcp/protocol.go")
+		if fd := c.Func("mcp", "ToolAnnotations", "MarshalJSON"); fd != nil && fd.Body != nil {
+			var compat *ast.StructType
+			cond := ""
+			ast.Inspect(fd.Body, func(n ast.Node) bool {
+				switch x := n.(type) {
+				case *ast.StructType:
+					if compat == nil {
+						compat = x
+					}
+				case *ast.IfStmt:
+					if cond == "" {
+						cond = c.Src(x.Cond)
+					}
+				}
+				return true
+			})
+			emitStruct("ToolAnnotationsCompat", compat, "mcp/protocol.go ToolAnnotations.MarshalJSON, hintomitempty=1")
+			c.Fact("wire.tool_annotations_compat_cond", cond)
+		} else {
+			c.Errf("wire: ToolAnnotations.MarshalJSON not found")
+		}
+		// clone: what the two capabilities clones copy (every pointer / map member must be listed: no aliasing)
+		for _, tn := range []string{"ClientCapabilities", "ServerCapabilities"} {
+			if fd := c.Func("mcp", tn, "clone"); fd != nil && fd.Body != nil {
+				var seq []string
+				ast.Inspect(fd.Body, func(n ast.Node) bool {
+					if x, ok := n.(*ast.AssignStmt); ok {
+						seq = append(seq, c.Src(x))
+					}
+					return true
+				})
+				c.Fact("wire.clone_"+strings.ToLower(tn), seq)
+			} else {
+				c.Errf("wire: %s.clone not found", tn)
+			}
+		}
+
 		// scanEventsT: what is done to a line before it is looked at (the model's `trimRightCRLF`: a line
 		// ended by CRLF must come out like one ended by LF — sse_eol_irrelevant)
 		if fd := c.Func("mcp", "", "scanEventsT"); fd != nil && fd.Body != nil {
